@@ -478,14 +478,23 @@ def impl_line(c):
     raise ValueError(m)
 
 
-EPS = 2.0 ** -52
-
-
 def keep_flags(second, L):
-    """triangulate (7bdf733): second(i) > second.cwiseAbs().maxCoeff() * n_landmarks * epsilon, evaluated in
-    binary64 exactly as the C++ does ((max * L) * eps; both products are exact unless max*L overflows 53 bits)"""
-    thr = max(abs(float(v)) for v in second) * L * EPS
-    return [1 if float(v) > thr else 0 for v in second]
+    """which selected columns triangulate divides (1) and which it zeroes (0: null eigenvalue, pseudo-inverse).
+    The code's own threshold is max|second| * L * eps (7bdf733); the PROPERTY only needs "null up to rounding",
+    so the decision is taken threshold-agnostically: clearly non-null (> 1e-9 max) -> 1, clearly null
+    (<= 1e-13 * L * max, or not positive) -> 0, anything in between -> None (case skipped by the caller: a
+    rewrite of the threshold inside that band must not raise an alarm)."""
+    m = max(abs(float(v)) for v in second)
+    out = []
+    for v in second:
+        v = float(v)
+        if v > 1e-9 * m and v > 0:
+            out.append(1)
+        elif v <= 1e-13 * L * m:
+            out.append(0)
+        else:
+            return None
+    return out
 
 
 def rel_close(a, b, tol, scale):
@@ -606,7 +615,7 @@ def eval_R(ctx, exe, mexe, cases, st):
     lines = []
     for c in cases:
         lines.append("R %d %d %d %s %s %s %s %s %s" % (
-            c["N"], c["L"], c["d"], " ".join(map(str, keep_flags(c["second"], c["L"]))),
+            c["N"], c["L"], c["d"], " ".join(map(str, keep_flags(c["second"], c["L"]) or [1] * c["d"])),
             " ".join(map(str, c["lm"])), " ".join(tok(v) for v in flat(c["dist"])),
             " ".join(tok(v) for v in c["mu"]), " ".join(tok(v) for v in flat(c["first"])),
             " ".join(tok(v) for v in c["second"])))
@@ -636,6 +645,9 @@ def eval_R(ctx, exe, mexe, cases, st):
         # spec on the implementation's own output (exact): landmark rows are copies, the others the formula
         bad = None
         keep = keep_flags(c["second"], L)
+        if keep is None:
+            st.skip("R_eigenvalue_in_threshold_band")
+            continue
         for x in range(n):
             if x in c["lm"]:
                 i = c["lm"].index(x)
@@ -733,6 +745,9 @@ def eval_T(ctx, exe, mexe, cases, st):
             continue
         scaleB = max(1.0, max(abs(v) for v in B))
         keep = keep_flags(lam, L)
+        if keep is None:
+            st.skip("T_eigenvalue_in_threshold_band")
+            continue
         kept = [a for a in range(d) if keep[a]]
         if not kept or min(lam[a] for a in kept) <= 1e-6 * scaleB:
             st.skip("T_tiny_kept_eigenvalue")
